@@ -252,3 +252,98 @@ Theorem C13_seeded_slots_depend_on_no_constraints :
     codec_slots (type_slots_seeded f ti) <> codec_slots (type_slots_seeded f' ti).
 Proof. exact seeded_slots_depend_on_no_constraints. Qed.
 Print Assumptions C13_seeded_slots_depend_on_no_constraints.
+
+(* ------------------------------------------------------------------------------------------
+   Round 4: pointer vs inline member representation on the EXTENSION paths (Rt/LayoutExt.v).
+   The UPER walk of the C structure (base algebra) and the UPER / OER / DER walks of the
+   structures of extensible SEQUENCE / CHOICE types, every member, addition and extension
+   alternative fetched through the ATF_POINTER flag of its member entry. *)
+From A1 Require Import Rt.Uper Rt.Ext Rt.LayoutExt Rt.LayoutExtProofs.
+
+Theorem C13_uper_walk_is_the_model : forall std t l x v, abs t l x = Some v -> uper_c std t l x = uper std t v.
+Proof. exact uper_c_abs. Qed.
+Print Assumptions C13_uper_walk_is_the_model.
+
+Theorem C13_uper_layout_invariant : forall std t l1 s1 l2 s2 v,
+  abs t l1 s1 = Some v -> abs t l2 s2 = Some v -> uper_c std t l1 s1 = uper_c std t l2 s2.
+Proof. exact uper_layout_invariant. Qed.
+Print Assumptions C13_uper_layout_invariant.
+
+(* for EVERY layout the walk of an extensible type's structure through member_ptr gives the bits /
+   octets of the representation-free extensibility model (Rt/Ext.v) *)
+Theorem C13_ext_uper_walk_is_the_model : forall std t l x v,
+  ext_abs t l x = Some v -> ext_uper_c std t l x = ext_uper std t v.
+Proof. exact ext_uper_c_abs. Qed.
+Print Assumptions C13_ext_uper_walk_is_the_model.
+
+Theorem C13_ext_oer_walk_is_the_model : forall t l x v, ext_abs t l x = Some v -> ext_oer_c t l x = ext_oer t v.
+Proof. exact ext_oer_c_abs. Qed.
+Print Assumptions C13_ext_oer_walk_is_the_model.
+
+Theorem C13_ext_der_walk_is_the_model : forall t l x v, ext_abs t l x = Some v -> ext_der_c t l x = ext_der t v.
+Proof. exact ext_der_c_abs. Qed.
+Print Assumptions C13_ext_der_walk_is_the_model.
+
+(* the structures exist for every layout that gives absent components a pointer slot, and two builds
+   (two layouts) of the same value emit the same UPER, OER and DER *)
+Theorem C13_ext_repr_denotes : forall t l v x, ext_repr t l v = Some x -> ext_abs t l x = Some v.
+Proof. exact ext_repr_abs. Qed.
+Print Assumptions C13_ext_repr_denotes.
+
+Theorem C13_ext_two_builds_same_bytes : forall std t v l1 l2 s1 s2,
+  ext_repr t l1 v = Some s1 -> ext_repr t l2 v = Some s2 ->
+  ext_uper_c std t l1 s1 = ext_uper_c std t l2 s2 /\ ext_oer_c t l1 s1 = ext_oer_c t l2 s2 /\
+  ext_der_c t l1 s1 = ext_der_c t l2 s2.
+Proof. exact ext_two_builds_same_bytes. Qed.
+Print Assumptions C13_ext_two_builds_same_bytes.
+
+(* the variant that skips the pointer dereference on the extension-alternative path (seeded/C13-5:
+   the helper re-derives the member address as sptr + memb_offset): for a value the model can
+   encode it differs from the model EXACTLY when the selected alternative is an extension
+   alternative held by pointer - UPER and OER *)
+Theorem C13_ext_choice_noderef_differs_exactly_on_pointer_layouts_uper : forall root exts l i v' s,
+  ext_repr (EChoice root exts) l (EVAlt i v') = Some s -> forall std,
+  ext_uper std (EChoice root exts) (EVAlt i v') <> None ->
+  (ext_uper_c_noderef std (EChoice root exts) l s <> ext_uper std (EChoice root exts) (EVAlt i v')
+   <-> ext_alt_by_pointer root l i).
+Proof. exact uper_choice_noderef_differs_iff. Qed.
+Print Assumptions C13_ext_choice_noderef_differs_exactly_on_pointer_layouts_uper.
+
+Theorem C13_ext_choice_noderef_differs_exactly_on_pointer_layouts_oer : forall root exts l i v' s,
+  ext_repr (EChoice root exts) l (EVAlt i v') = Some s ->
+  ext_oer (EChoice root exts) (EVAlt i v') <> None ->
+  (ext_oer_c_noderef (EChoice root exts) l s <> ext_oer (EChoice root exts) (EVAlt i v')
+   <-> ext_alt_by_pointer root l i).
+Proof. exact oer_choice_noderef_differs_iff. Qed.
+Print Assumptions C13_ext_choice_noderef_differs_exactly_on_pointer_layouts_oer.
+
+(* the additions loop of an extensible SEQUENCE: stuck as soon as one addition has a pointer slot (asn1c
+   gives every addition one), the same walk when all additions lie inline *)
+Theorem C13_ext_seq_noderef_stuck_on_pointer_layouts : forall std tg root adds l rvs avs s,
+  ext_repr (ESeq tg root adds) l (EVSeq rvs avs) = Some s ->
+  Exists (fun la => lay_ptr la = true) (skipn (length root) (lay_subs l)) ->
+  ext_uper_c_noderef std (ESeq tg root adds) l s = None /\ ext_oer_c_noderef (ESeq tg root adds) l s = None.
+Proof. exact seq_noderef_stuck. Qed.
+Print Assumptions C13_ext_seq_noderef_stuck_on_pointer_layouts.
+
+Theorem C13_ext_seq_noderef_same_on_inline_layouts : forall std tg root adds l s,
+  Forall (fun la => lay_ptr la = false) (skipn (length root) (lay_subs l)) ->
+  ext_uper_c_noderef std (ESeq tg root adds) l s = ext_uper_c std (ESeq tg root adds) l s /\
+  ext_oer_c_noderef (ESeq tg root adds) l s = ext_oer_c (ESeq tg root adds) l s.
+Proof. exact seq_noderef_inline_same. Qed.
+Print Assumptions C13_ext_seq_noderef_same_on_inline_layouts.
+
+(* the witness of seeded/C13-5: T ::= CHOICE { n, p SEQUENCE, ..., q SEQUENCE, l SEQUENCE OF, m }, value q:{5,TRUE}:
+   UPER 80 02 05 80 from the model and from the walk of both layouts; the helper is right on the inline build,
+   stuck on the -findirect-choice build, and right again for the root alternative p and the primitive extension m *)
+Theorem C13_ext_noderef_refuted :
+  ext_uper_encode false sx_t sx_v = Some [128; 2; 5; 128] /\
+  on_ext_repr sx_t sx_indirect sx_v (ext_uper_c_encode fetch false sx_t sx_indirect) = Some [128; 2; 5; 128] /\
+  on_ext_repr sx_t sx_inline sx_v (ext_uper_c_encode fetch_inline false sx_t sx_inline) = ext_uper_encode false sx_t sx_v /\
+  on_ext_repr sx_t sx_indirect sx_v Some <> None /\
+  on_ext_repr sx_t sx_indirect sx_v (ext_uper_c_encode fetch_inline false sx_t sx_indirect) <> ext_uper_encode false sx_t sx_v.
+Proof.
+  exact (conj (proj1 sx_model) (conj (proj1 sx_walk_indirect)
+        (conj (proj1 sx_noderef_refuted) (conj (proj1 (proj2 sx_noderef_refuted)) (proj1 (proj2 (proj2 sx_noderef_refuted))))))).
+Qed.
+Print Assumptions C13_ext_noderef_refuted.
